@@ -214,7 +214,7 @@ func Run(r *core.Run, cfg Config) {
 // Minimise drops feature slots (when the single-slot query alone fails the same clause) and then
 // rows of the database, one at a time in a fixed order, while the same clause/kind still fails.
 func Minimise(c Case, f *Failure, o Oracle, single map[string]qgen.GQ, get func(qgen.DBSpec) *Loaded) (Case, *Failure) {
-	same := func(nf *Failure) bool { return nf != nil && nf.Clause == f.Clause && nf.Kind == f.Kind }
+	same := func(nf *Failure) bool { return nf != nil && nf.Clause == f.Clause }
 	if len(c.G.Tags) > 1 {
 		for _, t := range c.G.Tags {
 			if g, ok := single[t]; ok {
